@@ -15,6 +15,7 @@ package main
 import (
 	"bytes"
 	"fmt"
+	"runtime"
 	"sort"
 	"strconv"
 	"strings"
@@ -272,6 +273,40 @@ func totalGtablistsEmptyLL(b []byte) []byte {
 	return c
 }
 
+// totalGtablistsAliased: the aliasing adversary as a complete GSUB/GPOS table (version 1.0, empty
+// feature and lookup lists): s script records all pointing at ONE script table, whose l LangSys
+// records all point at ONE LangSys table with f feature indices: 6s+6l+2f+26 bytes, s*l LangSys
+// visits of f reads and f allocated indices each.  distinct: the records carry distinct known tags
+// (167 scripts, 620 languages), so the map RETAINS min(s,167)*min(l,620) feature sets.
+func totalGtablistsAliased(s, l, f int, distinct bool) []byte {
+	totalGtablistsInitTags()
+	sl := totalBe16b(s)
+	for i := 0; i < s; i++ {
+		t := "latn"
+		if distinct {
+			t = totalGtablistsScripts[i%len(totalGtablistsScripts)]
+		}
+		sl = append(sl, t...)
+		sl = append(sl, totalBe16b(2+6*s)...)
+	}
+	sl = append(sl, 0, 0)
+	sl = append(sl, totalBe16b(l)...)
+	for i := 0; i < l; i++ {
+		t := "ENG "
+		if distinct {
+			t = totalGtablistsLangs[i%len(totalGtablistsLangs)]
+		}
+		sl = append(sl, t...)
+		sl = append(sl, totalBe16b(4+6*l)...)
+	}
+	sl = append(sl, 0, 0, 0xFF, 0xFF)
+	sl = append(sl, totalBe16b(f)...)
+	for i := 0; i < f; i++ {
+		sl = append(sl, 0, 1)
+	}
+	return totalGtablistsTable(0, sl, []byte{0, 0}, 0)
+}
+
 var totalGtablistsScripts, totalGtablistsLangs []string
 
 func totalGtablistsInitTags() {
@@ -370,6 +405,28 @@ func init() {
 	ops["tmgtablists.script"] = func(f Fields) string { return totalGtablistsScript(f.Hex("bytes"), f.Int("pos")) }
 	ops["tmgtablists.feature"] = func(f Fields) string { return totalGtablistsFeature(f.Hex("bytes"), f.Int("pos")) }
 	ops["tmgtablists.header"] = func(f Fields) string { return totalGtablistsHeader(f.Hex("bytes"), f["tp"]) }
+
+	// reproduction of the aliasing adversary on the real gtab.Read (deterministic counts only)
+	ops["tmgtablists.adv"] = func(f Fields) string {
+		return totalCanonPanic(guard(func() string {
+			b := totalGtablistsAliased(f.Int("s"), f.Int("l"), f.Int("f"), f["distinct"] == "1")
+			var m0, m1 runtime.MemStats
+			runtime.ReadMemStats(&m0)
+			info, err := gtab.Read(bytes.NewReader(b), gtab.TypeGsub)
+			runtime.ReadMemStats(&m1)
+			if err != nil {
+				return totalErrClass(err)
+			}
+			n := 0
+			for _, ff := range info.ScriptList {
+				n += len(ff.Optional)
+			}
+			mib := (m1.TotalAlloc - m0.TotalAlloc) >> 20
+			// the allocation is reported as a threshold only, so that the line is deterministic
+			return fmt.Sprintf("ok:bytes=%d;entries=%d;indices=%d;alloc>=%dMiB=%v", len(b), len(info.ScriptList), n,
+				f.Int("mib"), int(mib) >= f.Int("mib"))
+		}))
+	}
 
 	totalModelGens["gtablists"] = func(c *Ctx, r *Rng, seeds []totalSeed) {
 		totalGtablistsInitTags()
